@@ -86,8 +86,8 @@ func init() {
 			mustGit(dir, base, "add", "-A", ".")
 			mustGit(dir, commitEnv(c.Nth(1).Str(), c.Nth(2).Str()), "commit", "-q", "-m", c.Nth(3).Str())
 		}
-		run := func(flag string) (string, bool) {
-			cmd := exec.Command(bin, "git", flag)
+		run := func(flag ...string) (string, bool) {
+			cmd := exec.Command(bin, append([]string{"git"}, flag...)...)
 			cmd.Dir = dir
 			cmd.Env = append(os.Environ(), append(base, "TMPDIR="+dir)...)
 			out, err := cmd.CombinedOutput()
@@ -96,7 +96,35 @@ func init() {
 		num := func(s string) Sx { n, _ := strconv.Atoi(s); return N(n) }
 		team, top := []Sx{}, []Sx{}
 		basic := L(N(0), N(0), N(0), N(0))
-		if out, ok := run("-t"); !ok {
+		cell := func(r []string, i int) string {
+			if i < len(r) {
+				return r[i]
+			}
+			return ""
+		}
+		if len(in.Items())%2 == 0 {
+			// every other repository: the three tables asked for in ONE invocation, `coca git -b -t -o`; each table is what
+			// stands under its own header, whatever stands there (a row that belongs to another table is a row of this one)
+			out, ok := run("-b", "-t", "-o")
+			if !ok {
+				return L(A("!CLI-ERROR"), A(panicClass(out)))
+			}
+			tables := tablesByHeader(out)
+			if len(tables) != 3 {
+				return L(A("!CLI-BAD-TABLES"), N(len(tables)))
+			}
+			vals := map[string]string{}
+			for _, r := range tables[0][1:] {
+				vals[cell(r, 0)] = cell(r, 1)
+			}
+			basic = L(num(vals["Commits"]), num(vals["Entities"]), num(vals["Changes"]), num(vals["Authors"]))
+			for _, r := range tables[1][1:] {
+				team = append(team, L(A(cell(r, 0)), num(cell(r, 2)), num(cell(r, 1))))
+			}
+			for _, r := range tables[2][1:] {
+				top = append(top, L(A(cell(r, 0)), num(cell(r, 1)), num(cell(r, 2))))
+			}
+		} else if out, ok := run("-t"); !ok {
 			return L(A("!CLI-ERROR"), A(panicClass(out)))
 		} else {
 			for _, tb := range tableRows(out) {
@@ -108,7 +136,9 @@ func init() {
 				}
 			}
 		}
-		if out, ok := run("-o"); !ok {
+		if len(in.Items())%2 == 0 {
+			// done above
+		} else if out, ok := run("-o"); !ok {
 			return L(A("!CLI-ERROR"), A(panicClass(out)))
 		} else {
 			for _, tb := range tableRows(out) {
@@ -120,7 +150,7 @@ func init() {
 				}
 			}
 		}
-		if out, ok := run("-b"); ok {
+		if out, ok := run("-b"); ok && len(in.Items())%2 == 1 {
 			vals := map[string]string{}
 			for _, tb := range tableRows(out) {
 				for _, r := range tb {
@@ -161,6 +191,43 @@ func init() {
 		}
 		return L(L(team...), L(age...), L(top...), basic, L(cl...))
 	})
+}
+
+// tablesByHeader splits the tables a command prints one under the other: a table starts at the row that is followed by
+// the rule line |---|---|; rows are the cells of the | lines
+func tablesByHeader(out string) [][][]string {
+	var lines [][]string
+	var isRule []bool
+	for _, ln := range strings.Split(out, "\n") {
+		t := strings.TrimSpace(ln)
+		if !strings.HasPrefix(t, "|") {
+			continue
+		}
+		cells := strings.Split(strings.Trim(t, "|"), "|")
+		rule := true
+		for i := range cells {
+			cells[i] = strings.TrimSpace(cells[i])
+			if strings.Trim(cells[i], "-") != "" {
+				rule = false
+			}
+		}
+		lines = append(lines, cells)
+		isRule = append(isRule, rule)
+	}
+	var tables [][][]string
+	for i, cells := range lines {
+		if isRule[i] {
+			continue
+		}
+		if i+1 < len(lines) && isRule[i+1] {
+			tables = append(tables, [][]string{cells})
+			continue
+		}
+		if len(tables) > 0 {
+			tables[len(tables)-1] = append(tables[len(tables)-1], cells)
+		}
+	}
+	return tables
 }
 
 func commitsOf(in Sx) []git.CommitMessage {
